@@ -28,7 +28,7 @@ META = {
     ],
     "bounds": {"magnitudes": "all rationals (unbounded, symbolic)", "bare number operand": "all rationals (symbolic)", "units": "cover list + seeded same-dimension pairs/triples; all temperature-like pairs"},
     "enumerated_axes": [{"axis": "unit pairs / triples", "exhaustive": False}, {"axis": "temperature-like unit pairs", "exhaustive": True}],
-    "outside_claim": ["NaN magnitudes", "float ties", "ndarray magnitudes", "units with irrational (inexact) factors"],
+    "outside_claim": ["float ties", "ndarray magnitudes", "units with irrational (inexact) factors"],
     "assumptions": ["REF (pvlib/ref/refdefs.py) reads the bundled definition files correctly; it is self-checked against pint on the unchanged tree"],
 }
 
@@ -196,6 +196,37 @@ def h_bare(eng, u, huge=False):
         eng.prove(Iff(lt, x < 0), "lt-number-zero")
 
 
+def h_nan(eng):
+    """NaN magnitudes (float registry): never equal to anything, != always true, never ordered;
+    comparing does not raise; infinities order as numbers do"""
+    ureg = regs.float_default()
+    Qy = ureg.Quantity
+    nan, inf_ = float("nan"), float("inf")
+    P = eng.prove
+    others = [Qy(nan, "meter"), Qy(0.0, "meter"), Qy(0.0, "centimeter"), Qy(1.0, "meter"), Qy(nan, "centimeter"), Qy(0.0, "second"), Qy(nan, "second"), Qy(nan, "degC"), Qy(0.0, "degC"), Qy(nan, "")]
+    for unit in ("meter", "degC", "", "percent"):
+        a = Qy(nan, unit)
+        for b in others:
+            P((a == b) is False or bool(a == b) is False, f"nan:eq-false:{unit}:{b.units}")
+            P(bool(a != b) is True, f"nan:ne-true:{unit}:{b.units}")
+            P(bool(b == a) is False, f"nan:eq-false-reflected:{unit}:{b.units}")
+            if a.dimensionality == b.dimensionality and unit != "degC" and str(b.units) != "degree_Celsius":
+                for name, op in (("lt", operator.lt), ("le", operator.le), ("gt", operator.gt), ("ge", operator.ge)):
+                    P(bool(op(a, b)) is False and bool(op(b, a)) is False, f"nan:{name}-false:{unit}:{b.units}")
+        for num in (0, 0.0, 1.5, nan):
+            if unit == "degC" and not num == 1.5:
+                continue  # zero (and NaN) against an offset unit is refused as ambiguous: H05.e
+            try:
+                r = a == num
+            except Exception as ex:  # noqa: BLE001
+                eng.fail(f"nan:eq-number-raises:{unit}:{num}", detail=type(ex).__name__, stop=False)
+                continue
+            P(bool(r) is False, f"nan:eq-number-false:{unit}:{num}")
+    P(Qy(inf_, "meter") > Qy(1e300, "kilometer") and Qy(-inf_, "meter") < Qy(-1e300, "kilometer"), "inf:orders-beyond-everything")
+    P(Qy(inf_, "meter") == Qy(inf_, "centimeter") and not (Qy(inf_, "meter") == Qy(-inf_, "meter")), "inf:equality")
+    P(hash(Qy(inf_, "meter")) == hash(Qy(inf_, "centimeter")), "inf:hash")
+
+
 MIN_DISCHARGED = {"H05.a": 20, "H05.b": 5, "H05.c": 5, "H05.d": 20, "H05.e": 10}
 
 
@@ -253,6 +284,7 @@ def cases(tier, seed):
     unit_pairs += [("percent", "ppm"), ("radian", "degree"), ("count", "percent")]
     for u, v in unit_pairs:
         out.append(Case("H05.d-unit", f"{u}~{v}", M, "h_unit_order", {"u": u, "v": v}))
+    out.append(Case("H05.e", "nan-and-inf", M, "h_nan", {}, kind="conc"))
     # H05.e bare numbers
     for u in ["meter", "radian", "percent", "count", "degree", "kelvin", "degree_Celsius", "delta_degree_Celsius", "newton", "ppm", "byte"]:
         out.append(Case("H05.e", u, M, "h_bare", {"u": u}))
